@@ -422,6 +422,11 @@ impl<K: KeyT> SetWorld<K> {
         let si = (op.s as usize) % self.slots.len();
         let ti = (op.t as usize) % self.slots.len();
         let before = self.shape(si);
+        if !self.ctx.functional() && matches!(op.k, Kd::SetOp | Kd::SetOpAssign) && crate::alloc::live_bytes(&sim()) > (64 << 10) {
+            // under an equality that always fails every union doubles the set; unions of large sets are skipped
+            // so that run time stays bounded (the skip depends only on simulated state, so replay is exact)
+            return Ok(());
+        }
         match op.k {
             Kd::Nop => return Ok(()),
             Kd::New | Kd::WithCapacity | Kd::DropSlot => self.op_new(si, op)?,
